@@ -41,7 +41,7 @@ def run(ck):
         gens = [dict(ns=3, cat="c19g", ops=OPS, modes=MODES, genlen=18, num=25, seed=ck.seed * 100 + 30, inflight=1)]
         cfgs = ["Engine_c19_quick.cfg", "Engine_c19_quick_strict.cfg"]
         ck.setcov("constants", "2 shards, object + lock + tombstone, modes rw/ro, all source subsets, ignoreErrors, fault handler")
-    scripts, per, hit = eu.run_property(ck, "C19", cfgs, wit, gens, WHAT, procs=4 if not thorough else 6, par=4 if not thorough else 5)
+    scripts, per, hit = eu.run_property(ck, "C19", cfgs, wit, gens, WHAT, procs=4 if not thorough else 6, par=4 if not thorough else 3)
     evs = [e for p in per for e in p if e["ev"] == "Evacuate"]
     ok = [e for e in evs if e.get("res") == "ok"]
     ck.setcov("evacuations", len(evs))
